@@ -1,11 +1,11 @@
 package main
 
 import (
-	"net"
 	"crypto/tls"
 	"encoding/binary"
 	"fmt"
 	"math/rand"
+	"net"
 	"os"
 	"path/filepath"
 	"strconv"
@@ -218,7 +218,13 @@ func streamC18(env *runEnv) {
 	}
 	for _, ta := range []bool{true, false} {
 		for _, oid := range []bool{true, false} {
-			add(func(c *c18case) { c.tokenAuth = ta; c.openid = oid; c.local = !oid; c.tlsDisable = false; c.via = pick(r, []string{"file", "env", "split"}) })
+			add(func(c *c18case) {
+				c.tokenAuth = ta
+				c.openid = oid
+				c.local = !oid
+				c.tlsDisable = false
+				c.via = pick(r, []string{"file", "env", "split"})
+			})
 		}
 	}
 	// the rules do not depend on each other: each unsafe combination together with settings that are
@@ -264,10 +270,21 @@ func streamC18(env *runEnv) {
 	// only the exact value "disable" turns TLS off: with another spelling the gateway serves TLS
 	// (so local authentication is allowed and the listener speaks TLS)
 	for _, v := range []string{"Disable", "DISABLE", "disabled", "auto"} {
-		add(func(c *c18case) { c.openid = false; c.local = true; c.tlsDisable = false; c.tlsValue = v; c.via = pick(r, []string{"file", "env"}) })
+		add(func(c *c18case) {
+			c.openid = false
+			c.local = true
+			c.tlsDisable = false
+			c.tlsValue = v
+			c.via = pick(r, []string{"file", "env"})
+		})
 	}
 	add(func(c *c18case) { c.idpOK = false })
-	add(func(c *c18case) { c.openid = false; c.local = true; c.tlsDisable = false; c.extraAuth = []string{"basic"} })
+	add(func(c *c18case) {
+		c.openid = false
+		c.local = true
+		c.tlsDisable = false
+		c.extraAuth = []string{"basic"}
+	})
 	add(func(c *c18case) { c.openid = false; c.extraAuth = []string{"basic"} }) // "basic" is local under another name
 	// key lengths
 	lens := []int{-1, 0, 1, 31, 32, 33}
